@@ -26,6 +26,9 @@ class Indentation(afmformats.AFMForceDistance):
         self.preprocessing_options = {}
         # preprocessing details (for user convenience)
         self._preprocessing_details = {}
+        # pipeline the current data were actually obtained with
+        # (None: not known, see `apply_preprocessing`)
+        self._preprocessing_applied = None
         # protected fit properties
         self._fit_properties = FitProperties()
 
@@ -75,7 +78,14 @@ class Indentation(afmformats.AFMForceDistance):
         else:
             preproc_past = []
 
+        # The stored settings can be edited directly; what counts for
+        # skipping the pipeline is what the data were obtained with.
+        preproc_applied = self._preprocessing_applied
+        if preproc_applied is None:
+            preproc_applied = preproc_past
+
         if ((preproc_past != [preprocessing, options])
+                or (preproc_applied != [preprocessing, options])
                 or (not self._preprocessing_details and ret_details)):
             # Remember initial fit parameters for user convenience
             fp = self.fit_properties
@@ -88,6 +98,7 @@ class Indentation(afmformats.AFMForceDistance):
             self._rating = None
             # Apply preprocessing
             # (This will call `AFMData.reset_data` on self)
+            self._preprocessing_applied = None
             try:
                 details = preproc.apply(apret=self,
                                         identifiers=preprocessing,
@@ -101,6 +112,8 @@ class Indentation(afmformats.AFMForceDistance):
                 self.reset_data()
                 raise
             self._preprocessing_details = details
+            self._preprocessing_applied = [list(preprocessing),
+                                           copy.deepcopy(options)]
             # Check availability of axes
             for ax in ["x_axis", "y_axis"]:
                 # make sure the fitting axes are defined
